@@ -1,4 +1,5 @@
 CONSTANTS
+  ProtoIdx = {}
   Literals <- LitQuick
   OpsSeq <- ExploreAll
   GetterCap = 4
